@@ -287,7 +287,7 @@ SpaceX ==
               /\ (s.when = "after" => s.gs \in {"T", "t0"} /\ s.N = 2 /\ s.M = 1 /\ s.scl = "s0")
               /\ (s.scl = "s1" => s.gs = "none" /\ s.N = 2 /\ s.M = 1 /\ s.intg \in {"rk", "radau2"})}
     [] Family = "C09" ->
-         {s \in [rhs : {"R2", "R3", "R4", "R8", "R9", "RA"}, meth : {"MS", "SS", "DC"}, intg : {"rk", "radau2"}, N : 1..3, M : 1..2, grid : {"uni", "fun"},
+         {s \in [rhs : {"R2", "R3", "R4", "R8", "R9", "RA", "RG"}, meth : {"MS", "SS", "DC"}, intg : {"rk", "radau2"}, N : 1..3, M : 1..2, grid : {"uni", "fun"},
                  hz : {"num", "pT", "fT"}, seed : {Seed, Seed + 1}, cons : {<<"kP", "kQ">>, <<"kP", "kN">>}, obj : {<<"oP", "o3">>, <<"o6", "oP">>}, lT : {FALSE},
                  gs : {"none"}, scl : {"s0"}, when : {"before"}] :
               /\ (s.meth = "DC" <=> s.intg = "radau2")
